@@ -445,6 +445,29 @@ def _run_gmv(ctx, run):
                         % (col, tname, sorted(exp[1])), **c2)
         if exp[0] == 'gaussian':
             ctx.probes['gaussian_fallback_expected'] += 1
+        # "the column is modelled by ..." means by a model of THAT column: compare with a fresh
+        # instance of the expected family fitted on this column alone
+        fresh_name = 'GaussianUnivariate' if exp[0] == 'gaussian' else (
+            exp[1] if exp[0] == 'type' else None)
+        c_spec = (cfg.get('cols') or {}).get(str(col)) if cfg['form'] == 'dict' else cfg.get('cand')
+        plain = fresh_name and tname == fresh_name and (
+            exp[0] == 'gaussian' or (c_spec or {}).get('form') in ('class', 'name'))
+        if plain:
+            full = [v for v in gmvlib.FAM.values() if zoo.short(v) == fresh_name]
+            with sterile(run['state']):
+                ref = zoo.load_class(full[0])()
+                o = outcome(ref.fit, df[col])
+            if o[0] == 'ok':
+                from copsim.core import same
+                a_, b_ = outcome(uni.to_dict), outcome(ref.to_dict)
+                ctx.stats['column_model_comparisons'] += 1
+                if a_[0] == 'ok' and b_[0] == 'ok' and not same(a_[1], b_[1]):
+                    ctx.violate('c_column_model_is_fitted_to_its_own_column', SUBJ_GMV,
+                                'column %r: the %s in the model has parameters %s, a fresh %s '
+                                'fitted on this column has %s'
+                                % (col, tname, {k: v for k, v in a_[1].items() if k != 'type'},
+                                   fresh_name, {k: v for k, v in b_[1].items() if k != 'type'}),
+                                **c2)
     if not model.fitted:
         ctx.violate('c_model_fitted_after_fallback', SUBJ_GMV, 'fitted flag is False', **cond)
     with sterile(run['state'] + 1):
